@@ -560,6 +560,64 @@ def build(run):
         return proved("exec+recursive-oracle", vcs=n, sample=f"{n} (DAG, keyword arguments, compress) cases with operands shared under different keyword names / values")
     run.add("dagtraverser/keyword-arguments-in-the-memo-key", kwargs_memo, kind="values")
 
+    # ---- handlers that keep per-object state or use the library's memoisation decorator: several algorithm objects (of one class and of different
+    # classes) with different state, applied one after the other to equal nodes; each must give what ITS handlers give applied recursively to the tree
+    def stateful_instances():
+        from ufl.corealg.multifunction import memoized_handler
+
+        class Scale(MultiFunction):
+            def __init__(self, k):
+                MultiFunction.__init__(self)
+                self.k = k
+
+            def expr(self, o, *ops):
+                return ("op", type(o).__name__, ops)
+
+            @memoized_handler
+            def anchor(self, o):
+                return ("t", o._name, self.k)
+
+            def n1(self, o, a):
+                return ("n1", a, self.k)
+
+        class Shift(MultiFunction):
+            def __init__(self, k):
+                MultiFunction.__init__(self)
+                self.k = k
+
+            def expr(self, o, *ops):
+                return ("op", type(o).__name__, ops)
+
+            @memoized_handler
+            def anchor(self, o):
+                return ("shifted", o._name, -self.k)
+
+        def rec(alg, o):
+            if isinstance(o, Anchor):
+                return ("t", o._name, alg.k) if isinstance(alg, Scale) else ("shifted", o._name, -alg.k)
+            ops = tuple(rec(alg, x_) for x_ in o.ufl_operands)
+            if isinstance(o, N1) and isinstance(alg, Scale):
+                return ("n1", ops[0], alg.k)
+            return ("op", type(o).__name__, ops)
+        x, y = Anchor("x"), Anchor("y")
+        sh = N1(x)
+        dags = [x, N2(x, y), N2(sh, sh), N1(N2(sh, N3(sh, x, y))), N2(N1(Anchor("x")), N1(x))]
+        n = 0
+        algs = [Scale(2), Scale(3), Shift(7), Scale(2), Shift(1), Scale(5)]
+        for rounds in range(2):         # second round: every object has state from its first use
+            for alg in algs:
+                for e in dags:
+                    for route, fn in (("map_expr_dag", lambda a_, e_: map_expr_dag(a_, e_)), ("map_expr_dag(compress=False)", lambda a_, e_: map_expr_dag(a_, e_, compress=False)),
+                                      ("direct call on a terminal", lambda a_, e_: a_(e_) if not e_.ufl_operands else map_expr_dag(a_, e_))):
+                        got, want = fn(alg, e), rec(alg, e)
+                        n += 1
+                        if got != want:
+                            return violated(f"{type(alg).__name__}(k={alg.k}) via {route} on {key(e)} returns {got}; its own handlers applied recursively give {want} "
+                                            f"(other algorithm objects were used before it)", replay={"algorithm": f"{type(alg).__name__}({alg.k})", "route": route, "expr": repr(key(e)),
+                                                                                                      "got": repr(got), "want": repr(want)}, reproduced=True, backend="exec")
+        return proved("exec+recursive-oracle", vcs=n, sample=f"{n} (algorithm object, DAG, route) cases: memoised / stateful handlers of one object never see another object's results")
+    run.add("multifunction/stateful-and-memoized-handlers-are-per-object", stateful_instances, kind="values")
+
     # ---- contract of the unique traversals with a caller-supplied `visited` set (series of traversals sharing one set): a traversal yields
     # exactly the structurally distinct sub-expressions that are not in the set yet (and the root), each once, and leaves them in the set
     def shared_visited():
